@@ -393,6 +393,10 @@ META = {
             "invariant through every rotation, pruned point/range queries equal filter over the stored pairs for every "
             "insertion history and every instant/range, duplicate search is exact, coalescing preserves the set of instants and "
             "leaves finite intervals neither overlapping nor adjacent, for all valid intervals with int64 starts (MinInt64 included). "
+            "For every history that interleaves Add and Coalesce (coq/Temporal/TStoreHistProofs.v): the store invariant and the exact "
+            "pair count hold in every reachable state, so the query theorems apply there; the atom-holds-at-instant relation equals "
+            "that of the same history with the Coalesce calls deleted (no limit, or no Add refused by the limit in either run); right "
+            "after Coalesce(p) the finite intervals of every atom of p are pairwise at distance >= 2. "
             "The model is tied to factstore/interval_tree.go and temporal.go on every run by replaying generated operation "
             "histories (exhaustive on small timelines in the thorough tier) on the Go store and on the model inside Coq.",
     "note": "Trusted: Coq kernel + vm_compute; the hand-written model is tied to the code only by differential replay "
